@@ -27,7 +27,7 @@ BOOL_TYPES = ['QUBO', 'PUBO', 'PCBO', 'QUBOMatrix', 'PUBOMatrix']
 SPIN_TYPES = ['QUSO', 'PUSO', 'PCSO', 'QUSOMatrix', 'PUSOMatrix']
 MATRIX_TYPES = ['QUBOMatrix', 'PUBOMatrix', 'QUSOMatrix', 'PUSOMatrix']
 DEG2_TYPES = ['QUBO', 'QUSO', 'QUBOMatrix', 'QUSOMatrix']
-LABEL_POOL = ['a', 0, (1, 't'), 'b', 7]
+LABEL_POOL = ['a', 0, (1, 't'), 'b', 7, 'c']
 
 
 def is_spin_name(tn):
